@@ -340,6 +340,11 @@ class DictBuilder:
             def visit_Name(self, n: ast.Name):
                 if isinstance(n.ctx, ast.Load) and n.id in b.env and n.id not in b.trees:
                     return b.read_name(n.id)
+                if isinstance(n.ctx, ast.Load) and n.id in b.env and n.id in b.trees and any(
+                        not isinstance(x, ast.Dict) for _c, x in b.env[n.id]):
+                    # a local that is a dict literal on one path and a state value on another (`t = d.get(k)` / `if t is None: t = {..}`):
+                    # inside an expression it stands for both alternatives
+                    return b.read_name(n.id)
                 return n
 
             def visit_Lambda(self, n):
